@@ -22,6 +22,7 @@ import (
 	"net"
 	"net/http"
 	"os"
+	"strconv"
 	"strings"
 	"sync"
 	"time"
@@ -104,6 +105,17 @@ func fault(i int, w http.ResponseWriter, r *rec) bool {
 	}
 	r.Fault = sc.FaultKind
 	emit(r)
+	if code, ok := strings.CutPrefix(sc.FaultKind, "status:"); ok {
+		// HTTP error status with a plausible body: every status other than 200 is a failure
+		n, _ := strconv.Atoi(code)
+		w.WriteHeader(n)
+		if sc.Type == "panos" {
+			w.Write([]byte("<response status=\"error\" code=\"" + code + "\"><msg>request failed</msg></response>"))
+		} else {
+			w.Write([]byte(`{"httpStatus":"` + code + `","error_code":` + code + `,"error_message":"request failed"}`))
+		}
+		return true
+	}
 	switch sc.FaultKind {
 	case "status":
 		w.WriteHeader(500)
